@@ -1,4 +1,190 @@
-(* placeholder until C17/Proofs*.v land: nothing is claimed proved yet *)
-From V Require Import C17.Glue.
-Theorem c17_placeholder : True. Proof. exact I. Qed.
-Print Assumptions c17_placeholder.
+(* C17 - Gauges report the latest value; observables are read once per collection.
+   Every theorem is about the executable model coq/C17/Model.v (registry vector, AsyncMetricStorage::Record, sum / last-value
+   Merge and Diff, TemporalMetricStorage::buildMetrics, the clock as an oracle), tied to the C++ by the differential run of
+   ./check C17 (real MeterProvider, 1..4 readers of mixed temporality, scripted callbacks, real and scripted clock).
+   Histories are arbitrary lists of operations; [op_ok] is what the case parser guarantees (reader indices exist, callback
+   identities come from the finite universe); the points handed out are compared on the attribute sets of [attrs]. *)
+From V Require Import C17.Glue C17.ProofsReg C17.ProofsBase C17.ProofsSum C17.ProofsGauge C17.ProofsMeets C17.ProofsHist C17.ProofsLv C17.ProofsTop.
+Local Open Scope Z_scope.
+
+(* ---- "At each collection by a reader every callback registered on an observable instrument is invoked exactly once":
+   for EVERY operation sequence the collection invokes every key (instrument, function, state) exactly as often as it is
+   registered - [live_count]: the AddCallback calls since its last RemoveCallback, none if the instrument is not an observable one
+   or has been destroyed.  A callback registered twice is invoked twice (once per registration), as the code does. *)
+Theorem callback_once_per_collection : forall c ops r,
+  exists o, snd (run c (ops ++ [OCollect r])) = snd (run c ops) ++ [o] /\
+            forall k, count_key k (co_inv o) = live_count c ops k.
+Proof. exact callback_once_per_collection_lemma. Qed.
+Print Assumptions callback_once_per_collection.
+
+(* the headline reading: registered once since its last removal on a live observable instrument => invoked exactly once *)
+Theorem registered_once_invoked_exactly_once : forall c pre post r i f s,
+  registrable c i = true ->
+  existsb (is_destroy i) (pre ++ OAdd i f s :: post) = false ->
+  existsb (is_rem (i, f, s)) post = false -> existsb (is_add (i, f, s)) post = false ->
+  adds (i, f, s) (after_last_rem (i, f, s) pre) = O ->
+  exists o, snd (run c ((pre ++ OAdd i f s :: post) ++ [OCollect r])) = snd (run c (pre ++ OAdd i f s :: post)) ++ [o] /\
+            count_key (i, f, s) (co_inv o) = 1%nat.
+Proof. exact registered_once_invoked_once. Qed.
+Print Assumptions registered_once_invoked_exactly_once.
+
+(* ---- "and a removed callback ... is never invoked again" (unless it is added again) *)
+Theorem removed_never_invoked : forall c pre post r i f s,
+  existsb (is_add (i, f, s)) post = false ->
+  exists o, snd (run c ((pre ++ ORem i f s :: post) ++ [OCollect r])) = snd (run c (pre ++ ORem i f s :: post)) ++ [o] /\
+            count_key (i, f, s) (co_inv o) = O.
+Proof. exact removed_never_invoked_lemma. Qed.
+Print Assumptions removed_never_invoked.
+
+(* ---- "(or one whose instrument was destroyed)": never again, whatever is attempted on the dead handle afterwards *)
+Theorem destroyed_instrument_never_invoked : forall c pre post r i f s,
+  exists o, snd (run c ((pre ++ ODestroy i :: post) ++ [OCollect r])) = snd (run c (pre ++ ODestroy i :: post)) ++ [o] /\
+            count_key (i, f, s) (co_inv o) = O.
+Proof. exact destroyed_never_invoked_lemma. Qed.
+Print Assumptions destroyed_instrument_never_invoked.
+
+Theorem unregistered_never_invoked : forall c ops r k,
+  existsb (is_add k) ops = false ->
+  exists o, snd (run c (ops ++ [OCollect r])) = snd (run c ops) ++ [o] /\ count_key k (co_inv o) = O.
+Proof. exact unregistered_never_invoked_lemma. Qed.
+Print Assumptions unregistered_never_invoked.
+
+(* ---- "For observable counters and up-down counters whose callbacks report running totals, a cumulative reader receives the
+   reported total": for every history (totals going up or down, attribute sets appearing and disappearing, any interleaving of
+   readers) it is given exactly the attribute sets reported so far, each with the total most recently reported for it.
+   Hypotheses: no collection reports one attribute set of the instrument twice (the excluded region is finding F27, see
+   [cumulative_reader_gets_reported_total_refuted]) and no negative total on a monotonic counter (outside the property's domain). *)
+Theorem cumulative_reader_gets_reported_total_partial : forall c i, (i < ninstr c)%nat -> forall ops r,
+  Forall (op_ok c) ops -> (r < nreaders c)%nat -> cumulative c r = true -> is_last (kind_of c i) = false ->
+  no_repeated_report c (ops ++ [OCollect r]) i -> no_negative_total c (ops ++ [OCollect r]) i ->
+  exists o, snd (run c (ops ++ [OCollect r])) = snd (run c ops) ++ [o] /\
+            forall a, In a attrs ->
+              given c i (nth i (co_tabs o) None) a =
+              option_map (fun v => PSum v (is_mono (kind_of c i))) (last_report (events c (ops ++ [OCollect r]) i) a).
+Proof. exact cumulative_reader_gets_reported_total_lemma. Qed.
+Print Assumptions cumulative_reader_gets_reported_total_partial.
+
+(* Full statement: the same without [no_repeated_report].  REFUTED by the faithful model (open finding F27): with the same
+   callback registered twice the cumulative reader is given 0 instead of the reported total 10 *)
+Theorem cumulative_reader_gets_reported_total_refuted :
+  Forall (op_ok f27_cfg) f27_ops /\
+  map cp_instr (run_print f27_cfg f27_ops) = [[Some (1, [(0, PSum 0 true)])]] /\
+  spec_obs f27_cfg f27_ops (run_print f27_cfg f27_ops) = fail "cumulative_reader_gets_reported_total:multi_observation".
+Proof. exact model_meets_spec_refuted_lemma. Qed.
+Print Assumptions cumulative_reader_gets_reported_total_refuted.
+
+(* the hypotheses in closed form over the history *)
+Theorem no_repeated_report_meaning : forall c ops i,
+  no_repeated_report c ops i <-> forall g, In g (groups c ops i) -> has_dup (map fst g) = false.
+Proof. exact no_repeated_report_iff. Qed.
+Print Assumptions no_repeated_report_meaning.
+
+(* ---- "and a delta reader receives the difference from what that same reader was last given, independent of other readers'
+   collections": [pre ++ [OCollect r]] ends with the reader's previous collection, [post] contains none of its collections
+   (anything else: other readers' collections, registrations, removals, new totals).  It is given exactly the attribute sets
+   reported since, each with (most recent total) - (its total at the reader's previous collection, 0 if never reported) *)
+Theorem delta_reader_gets_difference_from_own_last_partial : forall c i, (i < ninstr c)%nat -> forall pre post r,
+  Forall (op_ok c) (pre ++ OCollect r :: post) -> (r < nreaders c)%nat -> cumulative c r = false ->
+  is_last (kind_of c i) = false -> Forall (fun o => o <> OCollect r) post ->
+  no_repeated_report c ((pre ++ OCollect r :: post) ++ [OCollect r]) i -> no_negative_total c ((pre ++ OCollect r :: post) ++ [OCollect r]) i ->
+  exists o, snd (run c ((pre ++ OCollect r :: post) ++ [OCollect r])) = snd (run c (pre ++ OCollect r :: post)) ++ [o] /\
+            forall a, In a attrs ->
+              given c i (nth i (co_tabs o) None) a =
+              match last_report (events_after c (pre ++ [OCollect r]) (post ++ [OCollect r]) i) a with
+              | Some v => Some (PSum (v - total_at c (pre ++ [OCollect r]) i a) (is_mono (kind_of c i)))
+              | None => None
+              end.
+Proof. exact delta_reader_gets_difference_from_own_last_lemma. Qed.
+Print Assumptions delta_reader_gets_difference_from_own_last_partial.
+
+(* the reader's first collection: the difference from nothing *)
+Theorem delta_reader_first_collection_partial : forall c i, (i < ninstr c)%nat -> forall ops r,
+  Forall (op_ok c) ops -> (r < nreaders c)%nat -> cumulative c r = false -> is_last (kind_of c i) = false ->
+  Forall (fun o => o <> OCollect r) ops ->
+  no_repeated_report c (ops ++ [OCollect r]) i -> no_negative_total c (ops ++ [OCollect r]) i ->
+  exists o, snd (run c (ops ++ [OCollect r])) = snd (run c ops) ++ [o] /\
+            forall a, In a attrs ->
+              given c i (nth i (co_tabs o) None) a =
+              option_map (fun v => PSum v (is_mono (kind_of c i))) (last_report (events c (ops ++ [OCollect r]) i) a).
+Proof. exact delta_reader_first_collection_lemma. Qed.
+Print Assumptions delta_reader_first_collection_partial.
+
+(* ---- "observable and synchronous gauges report, per attribute set, the most recently observed or recorded value":
+   under the stated hypothesis that the clock strictly increases in call order ([clock_increasing]: the real clock, or every
+   scripted step positive).  A cumulative reader is given every attribute set ever observed / recorded with its latest value,
+   a delta reader those observed / recorded since its own previous collection.  Covers kinds 2/5 (observable gauge) and 6/7
+   (the synchronous last-value storage path). *)
+Theorem gauge_reports_latest : forall c i, (i < ninstr c)%nat -> forall ops r,
+  Forall (op_ok c) ops -> (r < nreaders c)%nat -> cumulative c r = true -> is_last (kind_of c i) = true ->
+  clock_increasing c (ops ++ [OCollect r]) ->
+  exists o, snd (run c (ops ++ [OCollect r])) = snd (run c ops) ++ [o] /\
+            forall a, In a attrs ->
+              given c i (nth i (co_tabs o) None) a =
+              option_map (fun v => PLast v true) (last_report (events c (ops ++ [OCollect r]) i) a).
+Proof. exact gauge_reports_latest_cumulative_lemma. Qed.
+Print Assumptions gauge_reports_latest.
+
+Theorem gauge_reports_latest_delta_reader : forall c i, (i < ninstr c)%nat -> forall pre post r,
+  Forall (op_ok c) (pre ++ OCollect r :: post) -> (r < nreaders c)%nat -> cumulative c r = false ->
+  is_last (kind_of c i) = true -> Forall (fun o => o <> OCollect r) post ->
+  clock_increasing c ((pre ++ OCollect r :: post) ++ [OCollect r]) ->
+  exists o, snd (run c ((pre ++ OCollect r :: post) ++ [OCollect r])) = snd (run c (pre ++ OCollect r :: post)) ++ [o] /\
+            forall a, In a attrs ->
+              given c i (nth i (co_tabs o) None) a =
+              option_map (fun v => PLast v true) (last_report (events_after c (pre ++ [OCollect r]) (post ++ [OCollect r]) i) a).
+Proof. exact gauge_reports_latest_delta_lemma. Qed.
+Print Assumptions gauge_reports_latest_delta_reader.
+
+Theorem clock_increasing_meaning : forall c ops,
+  clock_increasing c ops <-> (c_scripted c = false \/ forall d, In (OStep d) ops -> 0 < d).
+Proof. exact clock_increasing_iff. Qed.
+Print Assumptions clock_increasing_meaning.
+
+(* ---- what the code does on a clock tie (the hypothesis of gauge_reports_latest fails): Merge and Diff keep their receiver
+   only if its sample is STRICTLY later, so on a tie the argument wins - Diff(previous, next) keeps the new observation, but
+   merged.Merge(last_reported) on the cumulative path keeps what was reported before *)
+Theorem gauge_tie : forall k x y, is_last k = true -> a_ts x = a_ts y -> merge k x y = y /\ diff k x y = y.
+Proof. exact gauge_tie_argument_wins. Qed.
+Print Assumptions gauge_tie.
+
+(* for every pair of values: a cumulative reader of an observable gauge whose second observation carries the same time stamp
+   (step 0) or an earlier one (step -1) is given the FIRST value again; with a positive step it is given the second *)
+Theorem gauge_tie_cumulative_reader_stale : forall v1 v2,
+  map cp_instr (run_print tie_cfg (tie_ops 0 v1 v2)) = [[Some (1, [(0, PLast v1 true)])]; [Some (1, [(0, PLast v1 true)])]] /\
+  map cp_instr (run_print tie_cfg (tie_ops (-1) v1 v2)) = [[Some (1, [(0, PLast v1 true)])]; [Some (1, [(0, PLast v1 true)])]] /\
+  map cp_instr (run_print tie_cfg (tie_ops 1 v1 v2)) = [[Some (1, [(0, PLast v1 true)])]; [Some (1, [(0, PLast v2 true)])]].
+Proof. exact gauge_tie_stale_lemma. Qed.
+Print Assumptions gauge_tie_cumulative_reader_stale.
+
+(* while a delta reader on the merge path is given the new value on a tie *)
+Theorem gauge_tie_delta_reader_new : forall v1 v2,
+  map cp_instr (run_print tie_cfg2 (tie_ops2 v1 v2)) =
+  [[Some (0, [(0, PLast v1 true)])]; [Some (1, [(0, PLast v1 true)])]; [Some (0, [(0, PLast v2 true)])]; [Some (1, [(0, PLast v1 true)])]].
+Proof. exact gauge_tie_delta_lemma. Qed.
+Print Assumptions gauge_tie_delta_reader_new.
+
+(* ---- the refinement behind the value theorems: for every admissible history, every instrument inside the domain is handed
+   exactly the points the abstract state of the SPEC prescribes (latest value, per reader last-given total and touched set) *)
+Theorem collect_gives_expected : forall c ops r,
+  Forall (op_ok c) ops -> (r < nreaders c)%nat ->
+  exists o, snd (run c (ops ++ [OCollect r])) = snd (run c ops) ++ [o] /\
+            forall i, (i < ninstr c)%nat -> dom c (sobserve c (final_sstate c ops)) i ->
+            forall a, In a attrs -> given c i (nth i (co_tabs o) None) a = expected c (sobserve c (final_sstate c ops)) i r a.
+Proof. exact collect_points. Qed.
+Print Assumptions collect_gives_expected.
+
+(* ---- the SPEC checker that ./check runs on the implementation's observations accepts the model's output:
+   for every LV case, and for every OBS case the parser accepts outside the region of finding F27 *)
+Theorem model_meets_spec : forall cs, case_good cs -> spec_on cs = [].
+Proof. exact model_meets_spec_lemma. Qed.
+Print Assumptions model_meets_spec.
+
+Theorem parsed_cases_are_well_formed : forall l c ops, parse_case l = Some (CObs c ops) -> Forall (op_ok c) ops.
+Proof. exact parse_case_ok. Qed.
+Print Assumptions parsed_cases_are_well_formed.
+
+Theorem case_good_meaning : forall c ops,
+  no_f27 c (final_sstate c ops) <->
+  forall i, is_last (kind_of c i) = false -> forall g, In g (groups c ops i) -> has_dup (map fst g) = false.
+Proof. exact no_f27_iff. Qed.
+Print Assumptions case_good_meaning.
